@@ -71,6 +71,7 @@ fn main() {
         "utils" => drv_tables::utils(&mut out, seed, thorough),
         "memops" => drv_tables::memops(&mut out, seed, thorough, scn.as_deref()),
         "memfaults" => drv_rx::memfaults(&mut out, seed, thorough),
+        "custcrc" => drv_chains::custcrc(&mut out, seed, thorough),
         _ => {
             eprintln!("unknown driver {}", driver);
             std::process::exit(2);
